@@ -117,6 +117,13 @@ def sortingHillclimb (eval : List ε → β) (key : β → α × α) (g : ε →
     HC ε β × Bool :=
   hillclimb eval key space (sortingSubset g space k) fuel
 
+/-- UnconstrainedSteepestAscentSetHillClimber.optimize (the older copy of the exchange climber):
+    no constraints, MAXIMISES the weighted score `numpy.dot(score, objfn_wt)`, accepts on strict `>` —
+    the same loop on the key `(0, -wscore)` -/
+def steepestAscent [Neg α] [OfNat α 0] (eval : List ε → β) (wscore : β → α) (space init : List ε) (fuel : Nat) :
+    HC ε β × Bool :=
+  hillclimb eval (fun v => ((0 : α), - wscore v)) space init fuel
+
 end hillclimb2
 
 /-! ### pymoo operators for subset chromosomes -/
@@ -262,6 +269,12 @@ structure TableProb where
   ineqWt : List Rat
   eq : List (List Rat × Rat)
   eqWt : List Rat
+  /-- per inequality constraint: `true` = the constraint function returns the signed slack
+      `w * (Σ cost - budget)` (the documented `G(x) ≤ 0` form, negative when satisfied), `false` = the
+      penalty form `w * max(0, Σ cost - budget)` -/
+  ineqSigned : List Bool := []
+  /-- per equality constraint: `true` = signed residual `w * (Σ vec - target)`, `false` = `w * |…|` -/
+  eqSigned : List Bool := []
 
 namespace TableProb
 
@@ -288,12 +301,24 @@ def evalfn (p : TableProb) (x : List Int) : Option (List Rat × List Rat × List
   let obj := (List.range nobj).map (fun j =>
     p.objWt.getD j 1 * (scale * colSum j + (if j = 0 then quadSum + posSum else 0)))
   let tot (v : List Rat) : Rat := Np.sum (ix.map (fun i => v.getD i 0))
-  let ineqcv := p.ineq.zipIdx.map (fun c => p.ineqWt.getD c.2 1 * ratMax0 (tot c.1.1 - c.1.2))
-  let eqcv := p.eq.zipIdx.map (fun c => p.eqWt.getD c.2 1 * ratAbs (tot c.1.1 - c.1.2))
+  let ineqcv := p.ineq.zipIdx.map (fun c => p.ineqWt.getD c.2 1 *
+    (if p.ineqSigned.getD c.2 false then tot c.1.1 - c.1.2 else ratMax0 (tot c.1.1 - c.1.2)))
+  let eqcv := p.eq.zipIdx.map (fun c => p.eqWt.getD c.2 1 *
+    (if p.eqSigned.getD c.2 false then tot c.1.1 - c.1.2 else ratAbs (tot c.1.1 - c.1.2)))
   pure (obj, ineqcv, eqcv)
+
+/-- evaluation used by the algorithm models: members outside the candidate set cannot occur
+    (the start subset is checked by the driver op), the default is never read -/
+def evalD (p : TableProb) (x : List Int) : List Rat × List Rat × List Rat := (p.evalfn x).getD ([], [], [])
 
 /-- `(gbest_ineqcv.sum() + gbest_eqcv.sum(), gbest_obj.sum())` -/
 def key (v : List Rat × List Rat × List Rat) : Rat × Rat := (Np.sum v.2.1 + Np.sum v.2.2, Np.sum v.1)
+
+/-- the (constraint violation, score) pair of the problem formulation `G(x) ≤ 0, H(x) = 0`:
+    `(Σ max(0, g) + Σ |h|, Σ obj)`.  Coincides with `key` whenever the constraint functions are
+    penalties (non-negative); differs from it for signed constraint functions (finding D41) -/
+def vkey (v : List Rat × List Rat × List Rat) : Rat × Rat :=
+  (Np.sum (v.2.1.map ratMax0) + Np.sum (v.2.2.map ratAbs), Np.sum v.1)
 
 end TableProb
 
@@ -302,5 +327,103 @@ def combos {ε : Type} : Nat → List ε → List (List ε)
   | 0, _ => [[]]
   | _ + 1, [] => []
   | k + 1, x :: xs => (combos k xs).map (x :: ·) ++ combos (k + 1) xs
+
+/-! ### Spec oracles: the decidable predicates the driver evaluates on the implementation's outputs
+    (`Props/C06`: `*_spec_iff` ties each to the Prop of the property theorem, `*_spec_sound` shows the
+    model's own output satisfies it) -/
+section specs
+variable {ε β α : Type} [LT α] [DecidableLT α] [DecidableEq α] [DecidableEq ε]
+
+/-- the single exchanges (position `i` of the decision, position `j` of the candidates outside it)
+    whose (constraint violation, score) is lexicographically smaller than the decision's -/
+def betterExchanges (eval : List ε → β) (key : β → α × α) (space decn : List ε) : List (Nat × Nat) :=
+  (pairs decn.length (complement space decn).length).filter (fun ij =>
+    lexLt (key (eval (exch decn (complement space decn) ij.1 ij.2).1)) (key (eval decn)))
+
+/-- "no single exchange improves the decision" -/
+def localOptB (eval : List ε → β) (key : β → α × α) (space decn : List ε) : Bool :=
+  (betterExchanges eval key space decn).isEmpty
+
+/-- the order-preserving k-selections of the candidate set that score strictly better -/
+def betterSubsets {γ : Type} [LT γ] [DecidableLT γ] (score : List ε → γ) (k : Nat) (space decn : List ε) :
+    List (List ε) :=
+  (combos k space).filter (fun x => decide (score x < score decn))
+
+/-- "the decision attains the brute-force optimum" -/
+def optimumB {γ : Type} [LT γ] [DecidableLT γ] (score : List ε → γ) (k : Nat) (space decn : List ε) : Bool :=
+  (betterSubsets score k space decn).isEmpty
+
+/-- "no returned member is dominated by another": `dom a b` = row `a` dominates row `b` -/
+def nondomB {ρ : Type} (dom : ρ → ρ → Bool) (rows : List ρ) : Bool :=
+  rows.zipIdx.all (fun a => rows.zipIdx.all (fun b => a.2 == b.2 || !dom b.1 a.1))
+
+end specs
+
+/-! ### Solution assembly: `res.X / res.F / res.G / res.H` -> `Solution(soln_decn, soln_obj, soln_ineqcv, soln_eqcv)` -/
+section assembly
+variable {ε ν : Type}
+
+/-- a pymoo individual: chromosome and the three vectors `Problem._evaluate` handed over for it -/
+structure Indiv (ε ν : Type) where
+  x : List ε
+  f : ν
+  g : ν
+  h : ν
+
+/-- `Problem._evaluate` (element-wise branch): `vals = self.evalfn(x); out.update(F, G, H)` — the
+    vectors are handed to pymoo as they are, signed constraint values included -/
+def mkIndiv (ev : List ε → ν × ν × ν) (x : List ε) : Indiv ε ν :=
+  let v := ev x; ⟨x, v.1, v.2.1, v.2.2⟩
+
+/-- the four parallel arrays of a Solution -/
+structure Soln (ε ν : Type) where
+  decn : List (List ε)
+  obj : List ν
+  ineqcv : List ν
+  eqcv : List ν
+
+/-- `<Algorithm>.minimize`, after pymoo returns: multi-objective `soln_decn = res.X, soln_obj = res.F,
+    soln_ineqcv = res.G, soln_eqcv = res.H` (row r of each array = member r of `res.opt`);
+    single-objective `numpy.stack([res.X])`, … (one member) -/
+def assemble (opt : List (Indiv ε ν)) : Soln ε ν :=
+  ⟨opt.map (·.x), opt.map (·.f), opt.map (·.g), opt.map (·.h)⟩
+
+/-- row view of a Solution: (decision, obj, ineqcv, eqcv) by position -/
+def Soln.rows (s : Soln ε ν) : List (List ε × ν × ν × ν) :=
+  List.zip s.decn (List.zip s.obj (List.zip s.ineqcv s.eqcv))
+
+/-- "the values reported with each solution equal a fresh evaluation at that decision" (exact) -/
+def truthfulB [DecidableEq ν] (ev : List ε → ν × ν × ν) (s : Soln ε ν) : Bool :=
+  s.decn.length == s.obj.length && s.decn.length == s.ineqcv.length && s.decn.length == s.eqcv.length &&
+  s.rows.all (fun r => decide (ev r.1 = r.2))
+
+/-- the exact optimisers (sorting, hill climbers): `nsoln = 1`, `numpy.stack([gbest_soln])`, … -/
+def solutionOf (x : List ε) (v : ν × ν × ν) : Soln ε ν := assemble [⟨x, v.1, v.2.1, v.2.2⟩]
+
+/-- `a * ()`: numpy broadcasts shape `(k,)` against shape `(0,)` — an error unless `k = 1`, in which
+    case the product is EMPTY -/
+def mulEmptyTuple (v : List ε) : Except String (List ε) :=
+  if v.length = 1 then .ok [] else .error "operands could not be broadcast together"
+
+/-- `Problem._evaluate` for a batch of chromosomes, as written:
+    element-wise problems (`x.ndim == 1`, pymoo loops over the rows) call `evalfn(x, *args)`; the
+    vectorised branch (`elementwise = False`) calls `evalfn(v *args, **kwargs)`, which PARSES as the
+    product `v * args` with `args = ()` (finding D42) -/
+def evaluateBatch (elementwise : Bool) (ev : List ε → ν) (X : List (List ε)) : Except String (List ν) :=
+  if elementwise then .ok (X.map ev) else X.mapM (fun v => (mulEmptyTuple v).map ev)
+
+end assembly
+
+/-! ### integer operators: pymoo's last step + rounding -/
+
+/-- `repair_clamp` (last statement of pymoo's `cross_sbx`) / `set_to_bounds_if_outside` (last
+    statement of `mut_pm`) for one variable -/
+def clampR (l u q : Rat) : Rat := if q < l then l else if u < q then u else q
+
+/-- IntegerSimulatedBinaryCrossover / IntegerPolynomialMutation on one chromosome: `raw` is whatever
+    the real-coded arithmetic (SBX spread factors, polynomial perturbation) produced before pymoo's
+    final clamp; then `.round(0).astype(int)` -/
+def integerVariant (xl xu : List Int) (raw : List Rat) : List Int :=
+  (List.zip raw (List.zip xl xu)).map (fun p => roundHalfEven (clampR (p.2.1 : Rat) (p.2.2 : Rat) p.1))
 
 end Optimize
